@@ -194,16 +194,7 @@ func request(k stdh.Kind, c Case, v *Variant) []byte {
 	for _, q := range c.Quirks {
 		r.Quirk(uint32(q[0]), q[1])
 	}
-	plan, disciplined := stdrun.Discipline(k, plan, o)
-	r.Src(plan.SrcMode, plan.SrcChunk, plan.Closed, plan.SrcExact, plan.SrcList)
-	r.Dst(plan.DstMode, 1<<22, plan.DstStep, plan.DstFill, disciplined)
-	r.Work(plan.WorkMode, plan.WorkFill)
-	if k.Iface == stdh.IMG {
-		r.Pix(c.PixFmt, 0, 0, 0, 0)
-	}
-	if plan.TokCap != 0 {
-		r.Tok(plan.TokCap)
-	}
+	stdrun.AppendPlan(r, k, c.Payload, plan, o)
 	r.Drive(4 << 20)
 	return r.Bytes()
 }
